@@ -114,6 +114,14 @@ func (t *tStructProto) structUnpack(m erpc.Message) error {
 		return err
 	}
 
+	// status and metadata travel in the frame's info headers, which are complete once the message
+	// header has been read: hand them to the message BEFORE the body is bound (UnmarshalBody runs
+	// the binding: a reply's metadata is copied for the caller there, and the header-stage plugins
+	// of a CALL or PUSH look at the metadata there)
+	headers := t.rProtocol.GetReadHeaders()
+	m.Status(true).DecodeQuery(goutil.StringToBytes(headers[HeaderStatus]))
+	m.Meta().Parse(headers[HeaderMeta])
+
 	m.UnmarshalBody(nil)
 	if m.Body() == nil {
 		// nothing to bind the body to (unknown route, vetoed or unexpected message): skip it
@@ -133,10 +141,6 @@ func (t *tStructProto) structUnpack(m erpc.Message) error {
 	if err = t.rProtocol.ReadMessageEnd(); err != nil {
 		return err
 	}
-
-	headers := t.rProtocol.GetReadHeaders()
-	m.Status(true).DecodeQuery(goutil.StringToBytes(headers[HeaderStatus]))
-	m.Meta().Parse(headers[HeaderMeta])
 
 	m.SetBodyCodec(codec.ID_THRIFT)
 	return m.SetSize(uint32(t.rwCounter.Readed()))
